@@ -19,7 +19,7 @@
                                range_list 1 (nr_of_full_intervals - 1) is the model's [intervals] by conversion. *)
 From Coq Require Import Lia Bool Qreduction.
 From TW Require Import Model.GlueLeaves3 Gen.RfaGlue.
-From TW Require Import Proofs.GlueProcessProofs Proofs.GlueRfaFixedProofs Proofs.ListLemmas8 Proofs.WindowsLink.
+From TW Require Import Proofs.GlueFunLemmas Proofs.GlueRfaFixedProofs Proofs.ListLemmas8 Proofs.WindowsLink.
 Open Scope Qc_scope.
 Open Scope string_scope.
 
